@@ -75,6 +75,7 @@ def check(model, rep, tier):
            'function) of the tree', floor=8)
 
   vn, ev, env = eval_liveness(model)
+  rules_df.check_no_early_exit(rep, 'LV-CLOSURE', vn, ev)
   rules_df.check_join_loop(rep, 'LV-JOIN', vn, 'next', 'in_',
                            'a use on a dropped branch is lost')
   live_in = env.get('@self.in_[node]')
